@@ -34,17 +34,40 @@ def check(ent, prog, cg, body, R):
 
 
 def p_callers(pr, prog, cg, body, R):
-    got = {}
-    for p in R:
-        b = cg.nodes[p]
-        for i, t in b.calls():
-            nm = t["callee"].get("resolved") or t["callee"]["path"]
-            if nm == body.path:
-                got[b.npath] = got.get(b.npath, 0) + 1
+    """The reviewed argument talks about what the listed callers pass.  It still applies when a call site disappears,
+    and when a call now goes through a private helper that is itself reached only from the listed callers (helper
+    extraction); it does not when a new function calls in, or a listed caller gains a call site."""
     want = pr["callers"]
-    if got != want:
-        return False, "call sites of %s changed: now %s, reviewed %s" % (body.npath, got, want)
-    return True, "callers unchanged (%s)" % ", ".join("%s×%d" % kv for kv in sorted(got.items()))
+
+    def callers_of(path):
+        got = {}
+        for p in R:
+            b = cg.nodes[p]
+            for i, t in b.calls():
+                nm = t["callee"].get("resolved") or t["callee"].get("path") or ""
+                if nm == path:
+                    got[b.npath] = got.get(b.npath, 0) + 1
+        return got
+
+    def rooted(fn_npath, depth=0):
+        """Is this (new) caller a private helper reached only from the reviewed callers?"""
+        if fn_npath in want:
+            return True
+        b = next((x for x in prog.lib_bodies() if x.npath == fn_npath), None)
+        if b is None or b.is_pub or depth > 3:
+            return False
+        cs = callers_of(b.path)
+        return bool(cs) and all(rooted(c, depth + 1) for c in cs)
+    got = callers_of(body.path)
+    for c, n in got.items():
+        if c in want:
+            if n > want[c]:
+                return False, "call sites of %s changed: %s now calls it %d times, reviewed %d" % (body.npath, c, n, want[c])
+        elif not rooted(c):
+            return False, "call sites of %s changed: now %s, reviewed %s" % (body.npath, got, want)
+    if not got:
+        return True, "no caller left"
+    return True, "callers within the reviewed set (%s)" % ", ".join("%s×%d" % kv for kv in sorted(got.items()))
 
 
 def _aggregates(prog, adt, variant):
@@ -71,6 +94,31 @@ def p_ctor_only(pr, prog, cg, body, R):
     return True, "%s::%s is built only in %s" % (pr["adt"].split("::")[-1], pr["variant"], pr["fns"])
 
 
+def _unit_values(b, o, depth):
+    if o["k"] == "const":
+        return {o.get("repr", "?").split("::")[-1]}
+    if o["k"] not in ("copy", "move") or o["place"]["p"] or depth > 6:
+        return {None}
+    l = o["place"]["l"]
+    if 1 <= l <= b.mir["arg_count"]:
+        return {None}
+    out = set()
+    for blk in b.blocks:
+        for s2 in blk["stmts"]:
+            if s2["k"] == "assign" and not s2["place"]["p"] and s2["place"]["l"] == l:
+                rv = s2["rv"]
+                if rv["k"] == "aggregate" and not rv.get("ops"):
+                    out.add(rv.get("variant"))
+                elif rv["k"] == "use":
+                    out |= _unit_values(b, rv["op"], depth + 1)
+                else:
+                    out.add(None)
+        t = blk["term"]
+        if t["k"] == "call" and not t["dest"]["p"] and t["dest"]["l"] == l:
+            out.add(None)
+    return out or {None}
+
+
 def p_ctor_consts(pr, prog, cg, body, R):
     vals = set()
     for b, s in _aggregates(prog, pr["adt"], pr["variant"]):
@@ -80,17 +128,9 @@ def p_ctor_consts(pr, prog, cg, body, R):
         for f, o in zip(rv["fields"], rv["ops"]):
             if f != pr["field"]:
                 continue
-            # the operand must be a unit-variant aggregate assigned just before, or a constant
-            v = None
-            if o["k"] in ("copy", "move") and not o["place"]["p"]:
-                for blk in b.blocks:
-                    for s2 in blk["stmts"]:
-                        if s2["k"] == "assign" and not s2["place"]["p"] and s2["place"]["l"] == o["place"]["l"] and \
-                                s2["rv"]["k"] == "aggregate":
-                            v = s2["rv"].get("variant")
-            if o["k"] == "const":
-                v = o.get("repr", "?").split("::")[-1]
-            vals.add(v)
+            # the operand is a unit-variant aggregate / constant, or a local every assignment of which is one
+            # (`let token_type = match s { "," => Comma, .. }`), followed through plain copies
+            vals |= _unit_values(b, o, 0)
     if not vals or None in vals or not vals <= set(pr["values"]):
         return False, "%s::%s.%s takes values %s, reviewed %s" % (pr["adt"], pr["variant"], pr["field"], sorted(map(str, vals)), pr["values"])
     return True, "%s.%s ∈ %s" % (pr["variant"], pr["field"], sorted(vals))
